@@ -195,3 +195,44 @@ Example C03_ex_resume :
 Proof. vm_compute. reflexivity. Qed.
 Example C03_ex_resume_layered : layered ex_gens2 = true /\ NoDup (flat_map fouts (concat ex_gens2)).
 Proof. split; [vm_compute; reflexivity|]. apply MapSpecFacts.nodup_str_NoDup. vm_compute. reflexivity. Qed.
+
+(* ====================================================================================================
+   Which error surfaces.  If the sequential run fails in generation g (after the generations G1 succeeded), the
+   functions of g can all be submitted, and the library's own per-element steps of g (output key, placement into the
+   result array, dump) cannot fail for an element whose task succeeded (`prep_steps_ok`: true of every well-shaped
+   request, see the example), then the error is that of the FIRST FAILING TASK in submission order -- argument
+   selection, the user function raising, or a wrong number of outputs -- and the parallel run fails with the SAME
+   error class for EVERY schedule and every storage assignment. *)
+From Verif Require Import Proofs.ParGenErr.
+
+Theorem C03_error_class : forall body dis user G1 g G2 inputs pis rs1 preps shapes' e,
+  layering_ok (G1 ++ g :: G2) = true ->
+  map_run body (concat G1) inputs user = Ok rs1 ->
+  submit_gen user (r_env rs1) (r_shapes rs1) g = Ok (preps, shapes') -> Forall (prep_steps_ok body) preps ->
+  fold_left (fun acc f => do st <- acc; run_func body user st f) g (Ok rs1) = Err e ->
+  map_run body (concat (G1 ++ g :: G2)) inputs user = Err e
+  /\ par_run body dis (G1 ++ g :: G2) inputs user pis = Err e.
+Proof. exact par_run_err. Qed.
+Print Assumptions C03_error_class.
+
+(* instance: f1 raises ZeroDivisionError for every element; for every schedule the run fails with that class *)
+Definition ex_fail (f : mfunc) (kw : env) : result (list val) :=
+  if str_eqb (fname f) (s "f1") then Err ZeroDivisionError else sym_body f kw.
+Example C03_ex_error_class :
+  exists rs1 preps shapes',
+    map_run ex_fail (concat []) ex_inputs [] = Ok rs1
+    /\ submit_gen [] (r_env rs1) (r_shapes rs1) (hd [] ex_gens) = Ok (preps, shapes')
+    /\ Forall (prep_steps_ok ex_fail) preps
+    /\ fold_left (fun acc f => do st <- acc; run_func ex_fail [] st f) (hd [] ex_gens) (Ok rs1) = Err ZeroDivisionError
+    /\ par_run ex_fail ex_dis ex_gens ex_inputs [] ex_pis = Err ZeroDivisionError.
+Proof.
+  eexists. eexists. eexists. split; [reflexivity|]. split; [vm_compute; reflexivity|].
+  split; [|split; vm_compute; reflexivity].
+  constructor; [|constructor; [|constructor]]; cbn [prep_steps_ok]; intros i sel outs Hi Hs Hb Hl.
+  - assert (i = 0 \/ i = 1 \/ i = 2) as [-> | [-> | ->]] by (vm_compute in Hi; lia);
+      vm_compute in Hs; injection Hs as <-; vm_compute in Hb; injection Hb as <-;
+      (split; [vm_compute; reflexivity|]); intros v [<-|[]];
+      (split; [eexists; vm_compute; reflexivity|intros arr; eexists; reflexivity]).
+  - exfalso. assert (i = 0 \/ i = 1 \/ i = 2) as [-> | [-> | ->]] by (vm_compute in Hi; lia);
+      vm_compute in Hs; injection Hs as <-; vm_compute in Hb; discriminate.
+Qed.
